@@ -130,6 +130,19 @@ def self_test():
 
 # ------------------------------------------------------------------ helpers
 
+# published parameters (a in m, f, omega in rad/s): IAU 1976 and WGS84
+PUBLISHED = {"IAU76": (6378140.0, 1.0 / 298.257, 7.292114992e-5),
+             "WGS84": (6378137.0, 1.0 / 298.257223563, 7292115e-11)}
+
+
+def _params(spec):
+    """(a, f, omega) the identities are judged with: the numbers given to the constructor, or
+    the published ones of the built-in ellipsoids - never what the object says about itself."""
+    if isinstance(spec, str):
+        return PUBLISHED[spec]
+    return float(spec[0]), float(spec[1]), float(spec[2])
+
+
 def _ell(spec):
     if isinstance(spec, str):
         return BUILTIN[spec], spec
@@ -207,7 +220,7 @@ def body_ellipsoid(case):
     ell, name = _ell(case["ell"])
     e = _earth(ell)
     lat, h, form = case["lat"], case["h"], case["form"]
-    a, f, om = ell._a, ell._f, ell._omega
+    a, f, om = _params(case["ell"])
     b = a * (1.0 - f)
     arg = _arg(lat, form)
     if form == "angle" and int(abs(lat) * 1e6) % 2:
@@ -293,7 +306,7 @@ def body_ellipsoid(case):
 def body_curvature(case):
     ell, name = _ell(case["ell"])
     e = _earth(ell)
-    a, f = ell._a, ell._f
+    a, f, _om = _params(case["ell"])
     b = a * (1.0 - f)
     lo, hi = b * b / a, a * a / b
     for arg, want, nm in ((0, lo, "rm(0)"), (0.0, lo, "rm(0.0)"), (90.0, hi, "rm(90)"),
@@ -332,7 +345,7 @@ def _dist(e, p1, p2, forms):
 def body_distance(case):
     ell, name = _ell(case["ell"])
     e = _earth(ell)
-    a, f = ell._a, ell._f
+    a, f, _om = _params(case["ell"])
     p1, p2, forms = case["p1"], case["p2"], case["forms"]
     lon1, lat1 = p1
     lon2, lat2 = p2
